@@ -18,7 +18,7 @@ CLAIMED = {
     'C01': ('exploration',
             'bounded exhaustive saturation of primitive-rule derivation trees on the real checker, finite-model oracle',
             'All derivation trees of height<=3 over the 15 primitive rules and the base-logic axioms, with rule arguments from an '
-            'adversarial alphabet, are linearised to Proof objects and given to theory.check_proof(no_gaps=True) (twice: the result '
+            'adversarial alphabet (built as maximally shared objects: one python object may sit under two binder depths), are linearised to Proof objects and given to theory.check_proof(no_gaps=True) (twice: the result '
             'must not depend on history); every distinct accepted sequent is type-checked by a reference checker and evaluated in '
             'all standard models with carriers of size <=2 (thorough <=3).',
             'Trusted: mc/holsem.py (finite-model evaluator, self-tested on the base-logic axioms and on invalid sequents), mc/ref.py. '
@@ -30,7 +30,8 @@ CLAIMED = {
             'disagreeing with positions, forward/self/foreign/closed-block citations, exact/weaker/stronger/unrelated stated '
             'sequents, placeholders, blank lines, nested blocks and macro steps (incl. macros whose expansion holds a placeholder); '
             'every transition runs theory.check_proof with gaps allowed and disallowed and is compared with a position-based '
-            'reference checker, the finite-model oracle and gap accounting; plus all (stated theorem, proof) pairs of checked_extend.',
+            'reference checker, the finite-model oracle and gap accounting; plus all (stated theorem, proof) pairs of checked_extend '
+            '(incl. proofs citing the theorem being introduced; after a refusal the name must be absent and not citable).',
             'Trusted: the reference checker in mc/props/c02.py (7 rules over one boolean variable), mc/holsem.py. States are merged '
             'by the table path -> (id, sequent, placeholder?, block?) (argument in state_key). Depth 3; thorough uses the full flat-item menu also at depth 3 (menus in bounds).',
             'DESIGN.md §3 C02'),
@@ -86,14 +87,19 @@ CLAIMED = {
             'equalities as pairs, unbounded directions, rows with a common factor) is given to omega.solve_matrix and, in both '
             'orientations, to simplex.Simplex; SAT answers are judged by evaluating the witness, contradictions by exhaustive '
             'search in a box (integers) resp. exact Fourier-Motzkin (rationals); contradictions of <=2-row systems are also '
-            'produced through OmegaHOL and the proof is checked by the kernel (conclusion false, hypotheses among the constraints).',
-            'Trusted: direct evaluation, box search, FM elimination, kernel checker. Exceptions/NOCONCL are "no verdict". '
-            'simplex_strict, branch-and-bound and the simplex HOL wrappers are not driven.',
+            'produced through OmegaHOL and the proof is checked by the kernel (conclusion false, hypotheses among the constraints). '
+            'Second family: every system of 2 (and 3 ordered) rows a*x + b*y OP k with OP in <=, >=, <, > is given to SimplexMacro, '
+            'StrictSimplexMacro (proof kernel-checked, hypotheses among the given constraints, never from a feasible system) and '
+            'simplex_strict.Simplex (delta-witness evaluated exactly); inside the box -2..2 to Simplex + branch_and_bound and '
+            'IntegerSimplexMacro (box search is exact there).',
+            'Trusted: direct evaluation, box search, (strict) FM elimination, kernel checker. Exceptions/NOCONCL are "no verdict". '
+            'Branch-and-bound is driven only on boxed systems (it need not terminate otherwise); a node cap (400) would be reported as cap.',
             'DESIGN.md §3 C16'),
     'C20': ('exploration',
             'bounded exhaustive enumeration of annotated while-programs x initial states on the real VC generator and evaluator, interpreter oracle',
             'All programs over skip/assignment/sequence/conditional/annotated loop up to the tier shapes, with expressions, conditions, '
-            'invariants and pre/postconditions from grammars containing every bracketing-sensitive shape, and all initial states in '
+            'invariants and pre/postconditions from grammars containing every bracketing-sensitive shape (incl. unary minus in every '
+            'operand position), and all initial states in '
             '{-2..3}^2: loop-free wp agrees with execution pointwise; for loop programs valid VCs (z3 on an independent encoding) plus a '
             'terminating run from a pre-state that misses the post is a violation; every displayed VC is re-parsed and must mean the '
             'same as the computed HOL condition; imp.eval_Sem proofs are kernel-checked and the proved final state equals the interpreter\'s.',
@@ -114,7 +120,7 @@ CLAIMED = {
             'explicit-state exploration of loader histories with fault injection on the real theory loader, history-free reference',
             'All histories of <=3 (thorough 4) loader events over a scratch library of five theories (loads with every kind of limit, '
             'file edits with later and earlier modification times, loads interrupted by an injected parse fault at the first/last item, '
-            'import cycle on/off) are executed on the real loader; after every load that returns, the complete theory state is compared '
+            'import cycle on/off, a file rewritten with a different import list) are executed on the real loader; after every load that returns, the complete theory state is compared '
             'with a history-free load of the same files, and loads that must fail must raise. A second family runs [import M; load T] '
             'and [load T; load T] histories over the real library in fresh interpreter processes.',
             'Trusted: the history-free reference is the same loader with emptied caches, cross-checked against truly fresh processes. '
@@ -174,7 +180,7 @@ CLAIMED = {
             'bounded exhaustive enumeration of macro invocations (library corpus, complete 1-deviation neighbourhoods, generated inputs, two-invocation sessions) on the real macros and the real checker',
             'For every macro step of the replayed library theories of the tier, every 1-deviation of it (premise dropped / duplicated / '
             'swapped / given a hypothesis, term argument replaced by a subterm or a premise), every generated input of the logic, nat '
-            'and int macros, and every ordered pair of invocations of the memoising auto macro: whenever eval succeeds and the expansion '
+            '(also on int numerals) and int macros, and every ordered pair of invocations of the memoising auto macro: whenever eval succeeds and the expansion '
             'is produced, the checker accepts the expansion at the default level, its conclusion is the one eval reports, it has no '
             'hypothesis eval does not report, and it rests on no unproved statement other than the premises.',
             'Trusted: the proof checker (C01/C02), kernel term equality. Level-0 macros are never expanded by the default checker and '
